@@ -113,8 +113,9 @@ MUTANTS = [
     {"prop": "C13", "name": "base-memo-written-for-any-system", "file": SR,
      "old": "        if check_nonmult and system == self._default_system_name:\n            # the memo belongs",
      "new": "        if check_nonmult:\n            # the memo belongs"},
-    {"prop": "C13", "name": "dimensionality-memo-per-object-only", "file": "pint/facets/plain/quantity.py",
-     "old": "        if memo is None or memo[0] is not self._units:\n", "new": "        if memo is None:\n"},
+    {"prop": "C13", "name": "dimensionality-memo-per-object", "file": "pint/facets/plain/quantity.py",
+     "old": "        return self._REGISTRY._get_dimensionality(self._units)\n\n    def check(",
+     "new": "        if getattr(self, \"_dim_memo\", None) is None:\n            self._dim_memo = self._REGISTRY._get_dimensionality(self._units)\n        return self._dim_memo\n\n    def check("},
     {"prop": "C13", "name": "prefixed-unit-registered-in-overlay", "file": PR,
      "old": "            if isinstance(units, ChainMap) and unit_name in units.maps[-1]:\n                units = units.maps[-1]\n",
      "new": ""},
